@@ -151,7 +151,10 @@ def scenario(ch, cfg):
         for j in range(ncalls[i]):
             msg, exp = make_msg(i, j)
             if error_call == (i, j) or (error_call and error_call[0] == i and j == ncalls[i] - 1 and error_call[1] >= ncalls[i]):
-                msg, exp = ch.pick(["1+", "nosuchfn(1)", "[1 2 3]@99"], "errexpr"), "error"
+                # evaluation errors of different kinds, incl. the server's separate "symbol not found" path
+                # (a function call / dictionary get on a name that does not exist)
+                msg, exp = ch.pick(["1+", "nosuchfn(1)", "[1 2 3]@99", ipc.KGRemoteFnCall(KGSym("nosuchfn"), [1]),
+                                    ipc.KGRemoteDictGetCall(KGSym("nosuchvar"))], "errexpr"), "error"
                 stats["probe_server_error"] += 1
             calls.append((msg, exp))
         plans.append(calls)
@@ -166,7 +169,8 @@ def scenario(ch, cfg):
         while j < len(calls):
             msg, exp = calls[j]
             w.yield_point("invoke")
-            rec = {"caller": i, "idx": j, "msg": repr(msg)[:40] if not hasattr(msg, "sym") else f"fncall({msg.sym},{msg.params})",
+            rec = {"caller": i, "idx": j, "msg": (f"fncall({msg.sym},{msg.params})" if hasattr(msg, "sym") else
+                                               f"dictget({msg.key})" if hasattr(msg, "key") else repr(msg)[:40]),
                    "expected": exp, "inv_step": w.steps, "ret_step": None, "after_loss": state["loss_seen"]}
             records.append(rec)
             np_ = pending_now()
